@@ -198,9 +198,35 @@ func genNode(t *rapid.T, cat *gen.Catalog, app uint32, depth int) *refcodec.Node
 	case k < 40: // fixed-width type with a payload of any length
 		if e, ok := pickEntry(t, cat, app, fixedTypes); ok {
 			n = nodeFor(t, e)
-			switch rapid.IntRange(0, 3).Draw(t, "payload-shape") {
+			switch rapid.IntRange(0, 4).Draw(t, "payload-shape") {
 			case 0:
 				n.Payload = smallAVPBytes(t)
+			case 4:
+				// exactly the width the type expects, filled with a boundary pattern (all zero,
+				// all ones, sign bit only, ...): the values a decoder is tempted to special-case
+				w := gen.FixedWidth(cat.Resolve(app, e.Code, e.Vendor))
+				if w == 0 {
+					w = 4
+				}
+				n.Payload = make([]byte, w)
+				switch rapid.IntRange(0, 5).Draw(t, "boundary-pattern") {
+				case 1:
+					for i := range n.Payload {
+						n.Payload[i] = 0xFF
+					}
+				case 2:
+					n.Payload[0] = 0x80
+				case 3:
+					n.Payload[w-1] = 1
+				case 4:
+					n.Payload[0] = 0x7F
+					for i := 1; i < w; i++ {
+						n.Payload[i] = 0xFF
+					}
+				case 5:
+					n.Payload[0] = 0x83 // Time: the last second before the 2036 era change is 0xFFFFFFFF, 0x83aa7e80 is 1970
+					copy(n.Payload[1:], []byte{0xaa, 0x7e, 0x80})
+				}
 			default:
 				n.Payload = rapid.SliceOfN(rapid.Byte(), 0, 40).Draw(t, "payload")
 			}
